@@ -8,7 +8,9 @@
 //     host the probes use: issuer == iss of tokens minted through the advertised endpoints; every advertised
 //     issuer-relative endpoint is routed (not the router's own 404) and serves the function it is advertised for;
 //     grant_types_supported <=> the token endpoint does not answer unsupported_grant_type; S256 advertised => an S256
-//     flow succeeds and a wrong / absent verifier fails; request objects advertised => a valid signed one is honoured.
+//     flow succeeds and a wrong / absent verifier (or the challenge string itself) fails; request objects advertised =>
+//     a valid signed one is honoured; both advertised => PKCE parameters carried in the query, in the object or in both
+//     (object supersedes) are enforced all the same.
 //  2. construct cases: issuer strings from a URL grammar through every constructor; reference reading by RFC 3986.
 //  3. discover cases: client.Discover against documents served from an in-memory RoundTripper.
 package main
@@ -31,7 +33,10 @@ func inQuickSlice(idx int, seed int64) bool {
 
 func mandatory(run *ev.Run) {
 	for _, rn := range opdrv.RouterNames {
-		run.Mandatory("doc:"+rn, "second-host-minted:"+rn, "pkce-s256-success:"+rn, "pkce-wrong-verifier-refused:"+rn, "pkce-absent-verifier-refused:"+rn, "reqobj-honoured:"+rn)
+		run.Mandatory("doc:"+rn, "second-host-minted:"+rn, "pkce-s256-success:"+rn, "pkce-wrong-verifier-refused:"+rn, "pkce-absent-verifier-refused:"+rn, "pkce-challenge-string-verifier-refused:"+rn, "reqobj-honoured:"+rn)
+		for _, pl := range []string{"query-only", "object-only", "both-equal", "both-different", "both-query-says-plain"} {
+			run.Mandatory("pkce+reqobj-honoured:" + rn + ":" + pl)
+		}
 		for e, k := range epKey {
 			run.Mandatory("served:" + rn + ":" + k)
 			if e != epAuth && e != epToken { // those two are exercised by every flow and grant probe
